@@ -32,7 +32,7 @@ def push_tok():
     return weighted((4, d), (4, n), (1, big))
 
 
-KEY_FORMS = ["c", "c", "c", "u", "u", "h", "hbad", "xgep", "off", "p05", "short", "empty"]
+KEY_FORMS = ["c", "c", "c", "u", "u", "h", "hbad", "xgep", "off", "xnop", "p05", "short", "empty"]
 SIG_VARIANTS = ["ok", "ok", "ok", "ok", "ok", "ok", "ok", "ok", "empty", "empty", "empty", "highs", "padr", "pads", "negr", "negs", "r0", "s0", "rn", "sn", "smax", "sn+low", "r33",
                 "seqlen+1", "seqlen-1", "longlen", "longrlen", "rlen82", "rlen83", "rlen84", "rlen87", "slen83", "slen84", "slen8c", "rlen84nz",
                 "slen85nz", "seq80", "seq83junk", "seq84", "trail", "pad520", "pad521", "notseq", "nohashtype", "empty", "wrongkey",
@@ -390,7 +390,7 @@ def lock_templates():
         return lock, [["sig", k, ht, "ok", 0], cond]
 
     ks = st.integers(0, 5)
-    forms = st.sampled_from(["c", "c", "c", "u", "u", "h", "hbad", "xgep", "off", "p05"])
+    forms = st.sampled_from(["c", "c", "c", "u", "u", "h", "hbad", "xgep", "off", "xnop", "xnop", "p05"])
     vars_ = st.sampled_from(SIG_VARIANTS)
     ht = weighted((2, STD_HT), (1, HASHTYPES))
     return st.one_of(
@@ -472,7 +472,7 @@ def spend_cases():
         return dict(ctx, kind="spend", shape=shape, lock=[["key", k, form]], unlock=unlock, flags=flags,
                     mut=mut if use_mut else [])
     wpkh = st.builds(mk_wpkh, st.sampled_from(["p2wpkh", "p2sh-p2wpkh"]), st.integers(0, 5),
-                     st.sampled_from(["c", "c", "c", "u", "h", "xgep"]), st.one_of(STD_HT, HASHTYPES),
+                     st.sampled_from(["c", "c", "c", "u", "h", "xgep", "xnop"]), st.one_of(STD_HT, HASHTYPES),
                      # the element-size limit also applies to the two witness items of a P2WPKH spend: signatures padded to
                      # 520 / 521 bytes (still valid for the lax parser) are drawn as often as all other variants together
                      weighted((3, st.sampled_from(SIG_VARIANTS)), (1, st.sampled_from(["pad520", "pad521", "pad521"]))),
